@@ -9,6 +9,18 @@ TB = ("Coq 8.16.1 kernel; hand-written Gallina model tied to /repo by the corres
       "OCaml runner/main.ml; Python harness. See DESIGN.md section 7.")
 
 CLAIMED = {
+ "C07": dict(
+   text="12 theorems about a Gallina model of rewriting.snake_removal (follow_wire, find_snake, unsnake with its "
+        "index bookkeeping, the outer loop, then monoidal normalize): every yielded step of every prefix of the trace "
+        "and the normal form are well-typed with the input's domain and codomain; follow_wire returns the consumer of "
+        "the wire and the passed boxes; find_snake returns None iff no cap leg runs straight into the opposite leg of a "
+        "matching cup; whatever it selects satisfies a snake equation (types match), with or without obstructions; each "
+        "unsnake removes exactly two boxes so the outer loop terminates; the twisted snake is left in place.  PARTIAL: "
+        "totality (only NotImplementedError) is proved for obstruction-free snakes only and semantic soundness in every "
+        "rigid category is stated, not proved - the check covers both with exact integer tensor functors and exception "
+        "classes on every yielded step.  Tie to /repo: whole traces compared with the extracted model.",
+   design="6/C07", engine="coq-snake",
+   technique="Coq proof (partial) + trace correspondence + exact tensor-semantics oracle"),
  "C04": dict(
    text="8 theorems about the Gallina model of monoidal.Functor/rigid.Functor application (finite object and box "
         "tables; Swap, Cup, Cap and daggered boxes mapped as the code does): images are well-typed from F(dom) to "
@@ -141,6 +153,7 @@ man = {
    ("coq-repr", "coq/Repr", "Gallina printer/parser model of repr/eq/hash + Coq theorems + extracted runner"),
    ("coq-cart", "coq/Cart", "Gallina model of discopy.cartesian + Coq theorems + extracted runner"),
    ("coq-draw", "coq/Draw", "Gallina model of drawing.diagram2nx over Q + Coq theorems + extracted runner"),
+   ("coq-snake", "coq/Snake", "Gallina model of rewriting.snake_removal on top of the core model + Coq theorems + extracted runner"),
    ("coq-tensor", "coq/Tensor", "Gallina model of numpy primitives and discopy.tensor.Tensor over Gaussian integers + Coq theorems + extracted runner"),
  ]],
  "checks": checks,
